@@ -1,5 +1,5 @@
 From Coq Require Import List NArith ZArith Permutation.
-From SK Require Import lib.LGraph lib.StrJoin model.C08_Model proof.C08_Spec proof.C08_Faithful proof.C08_Nauty proof.C08_SigFun proof.C08_Sound proof.C08_Invariant proof.C08_Value proof.C08_GraphSig proof.C08_Auts proof.C08_GenIdem.
+From SK Require Import lib.LGraph lib.StrJoin model.C08_Model proof.C08_Spec proof.C08_Faithful proof.C08_Nauty proof.C08_SigFun proof.C08_Sound proof.C08_Invariant proof.C08_Value proof.C08_GraphSig proof.C08_Auts proof.C08_GenIdem proof.C08_Select.
 Import ListNotations.
 
 (** 1. Faithfulness: the canonical graph is the input relabelled by a map that is injective on its nodes;
@@ -216,3 +216,16 @@ Theorem C08_generic_idempotent : forall g : graph, wf g ->
   serialise (canon_generic (canon_generic g)) = serialise (canon_generic g).
 Proof. exact generic_idempotent. Qed.
 Print Assumptions C08_generic_idempotent.
+
+(** 11. NautyCanonicalizer with edge_attrs = ["order"] (standard_order not selected) is modelled as the search on
+        [strip_std g] (every standard_order forgotten; the canonical permutation is compared with the implementation's
+        on every run).  It is exact on the attributes it selects: invariant canonical graph, and its graph_signature
+        is equal exactly for graphs isomorphic once standard_order is forgotten. *)
+Theorem C08_nauty_order_only_exact : forall (D : Type) (digest : str -> D) (g h : graph),
+  wf g -> wf h -> els_ok g -> els_ok h ->
+  (iso_cov (strip_std g) (strip_std h) -> geq_cov (canon_nauty (strip_std g)) (canon_nauty (strip_std h))) /\
+  ((digest (graph_sig_label (strip_std g)) = digest (graph_sig_label (strip_std h)) ->
+    graph_sig_label (strip_std g) = graph_sig_label (strip_std h)) ->
+   (digest (graph_sig_label (strip_std g)) = digest (graph_sig_label (strip_std h)) <-> iso_cov (strip_std g) (strip_std h))).
+Proof. exact nauty_order_only_exact. Qed.
+Print Assumptions C08_nauty_order_only_exact.
